@@ -1,6 +1,6 @@
 import FlytModel.Generated.IR
 import FlytModel.Expected.IR
-/-! The translation of `Result_Value` from the CURRENT source is, term for term, the IR the refinement theorems are about. -/
+/-! The translation of `Result_Value` from the CURRENT source is, term for term, the expected IR. -/
 namespace Flyt.Tie
 theorem Result_Value : Flyt.Generated.IR.Result_Value = Flyt.Expected.IR.Result_Value := rfl
 end Flyt.Tie
